@@ -172,3 +172,23 @@ prop("C01",
                 "cell must complete or the run is inconclusive. hopclient/hopserver configuration plumbing is not driven here.",
      technique="runtime monitoring of real handshakes against impostor/invalid counterparts on a simulated network, ground-truth oracle by construction",
      assumptions=["go1.26 testing/synctest virtual time"])
+
+prop("C19",
+     level="fault_enumeration",
+     parts=[{"engine": "hsk"}],
+     floor={"quick": 300, "thorough": 3000},
+     rule="(a) floods of valid client hellos (5-15 distinct client keys, 100-300 source addresses, 1-4 hellos each): every hello "
+          "must be answered at its source (non-vacuity) while the server's handshake/session tables and the goroutine count stay "
+          "constant. (b) a held client acknowledgement is delivered from another IP, another port, with another client's cookie, "
+          "with another client's KEM key, with a flipped cookie bit, and after a cookie-key rotation (2-minute ticker in virtual "
+          "time); only the unmodified control may produce a ServerAuth or grow the tables. (c) a hidden-mode server is sent every "
+          "discoverable message, a hidden request built for another KEM key, truncations, bit flips, junk with every message "
+          "type byte, and the valid request after the freshness window (stale, from its own and a foreign address); the wire log "
+          "must show no datagram from the server except for the fresh control request. Non-trivial = a stimulus delivered to "
+          "the server whose reaction (tables, emitted datagrams) was observed; distinct by (repetition, stimulus).",
+     level_text="Enumeration of cookie-binding and hidden-silence stimuli against the real server on a simulated wire, observed "
+                "through the wire log and white-box table sizes; hello floods by exploration.",
+     level_note="A replay of a valid hidden request inside the 5 s window and a replayed valid ClientAck from its own address "
+                "are fresh by the protocol's own definition and are recorded, not judged. Heap growth is recorded, not judged.",
+     technique="fault injection on a simulated network with wire-log and state-table monitors (virtual time)",
+     assumptions=["go1.26 testing/synctest virtual time"])
